@@ -290,6 +290,25 @@ func c14One(c *Ctx, text string, idx int, local map[string]int64) {
 		}
 		local["derived."+op.Name]++
 	}
+	// the receiver as seen from inside the call: a valuer consulted during
+	// Reduce looks at the statement being reduced
+	{
+		before := dumpOf(sel)
+		seen := ""
+		ov := observingValuer{now: fixedNow, look: func() {
+			if seen == "" {
+				if d := dumpOf(sel); d != before {
+					seen = astx.FirstDiff(before, d)
+				}
+			}
+		}}
+		mon.Try(func() { _ = sel.Reduce(ov) })
+		if seen != "" {
+			r.Violation("derived-operation-mutates-receiver", det("while SelectStatement.Reduce was running, its valuer saw the receiver changed: "+seen))
+			return
+		}
+		local["derived.observed-from-inside"]++
+	}
 	// GroupByOffset / GroupByInterval only write the unexported memo
 	before := dumpOf(sel)
 	mon.Try(func() { _, _ = sel.GroupByOffset() })
@@ -297,29 +316,43 @@ func c14One(c *Ctx, text string, idx int, local map[string]int64) {
 		r.Violation("derived-operation-mutates-receiver", det("GroupByOffset changed exported state"))
 		return
 	}
-	// (3) history: mutate one side step by step, watch the other
-	for _, side := range []string{"clone", "original"} {
+	// (3) history: any schedule of in-place operations on the two sides; after
+	// every step the side that was not touched must be what it was before the
+	// step. Some operations run before the clone is taken (the clone must then
+	// be a faithful copy of the rewritten statement, whatever fields the
+	// rewrite set).
+	for _, sched := range []string{"clone-only", "original-only", "interleaved", "interleaved"} {
 		st2, _, _, _, _ := parseQuery1(text)
 		_, _, _, a := stmtParts(st2)
+		var hist []string
+		for k, pre := 0, rg.Intn(3); k < pre; k++ {
+			m := c14muts[rg.Intn(len(c14muts))]
+			hist = append(hist, "before-clone:"+m.name)
+			mon.Try(func() { m.run(a) })
+			local["history.before-clone"]++
+		}
 		var b *influxql.SelectStatement
 		mon.Try(func() { b = a.Clone() })
 		if b == nil {
 			return
 		}
-		victim, watched := b, a
-		if side == "original" {
-			victim, watched = a, b
+		if da, db := dumpOf(a), dumpOf(b); da != db {
+			r.Violation("clone-differs", det(fmt.Sprintf("after %v the clone differs from the statement it was taken from: %s", hist, astx.FirstDiff(da, db))))
+			return
 		}
-		snap := dumpOf(watched)
 		steps := rg.Range(1, 6)
-		var hist []string
 		for k := 0; k < steps; k++ {
+			victim, watched, side := b, a, "clone"
+			if sched == "original-only" || (sched == "interleaved" && rg.Bool()) {
+				victim, watched, side = a, b, "original"
+			}
+			snap := dumpOf(watched)
 			m := c14muts[rg.Intn(len(c14muts))]
-			hist = append(hist, m.name)
+			hist = append(hist, side+":"+m.name)
 			mon.Try(func() { m.run(victim) })
 			local["history."+m.name]++
 			if now := dumpOf(watched); now != snap {
-				r.Violation("mutation-visible-on-other-side", det(fmt.Sprintf("after %v applied to the %s, the other side changed: %s", hist, side, astx.FirstDiff(snap, now))))
+				r.Violation("mutation-visible-on-other-side", det(fmt.Sprintf("after %v (last step applied to the %s), the other side changed: %s", hist, side, astx.FirstDiff(snap, now))))
 				return
 			}
 		}
@@ -373,6 +406,23 @@ func c14One(c *Ctx, text string, idx int, local map[string]int64) {
 	}
 }
 
+// observingValuer answers now() and no variable, and calls look on every
+// request.
+type observingValuer struct {
+	now  time.Time
+	look func()
+}
+
+func (v observingValuer) Value(key string) (interface{}, bool) { v.look(); return nil, false }
+func (v observingValuer) Call(name string, args []interface{}) (interface{}, bool) {
+	v.look()
+	if name == "now" && len(args) == 0 {
+		return v.now, true
+	}
+	return nil, false
+}
+func (v observingValuer) Zone() *time.Location { v.look(); return nil }
+
 func c14Known(diffPath string) string { return "" }
 
 var c14Fixed = []string{
@@ -383,22 +433,27 @@ var c14Fixed = []string{
 	"SELECT DISTINCT host FROM cpu",
 	"SELECT time AS ts, count(DISTINCT v) FROM cpu GROUP BY time(1m, 30s), host fill(3.5) ORDER BY time DESC TZ('America/New_York')",
 	"SELECT top(v, host, 3), (v) FROM /cpu.*/ WHERE host =~ /^(a|b)$/ OR (region !~ /^us$/ AND v > 10)",
+	"SELECT v FROM cpu WHERE host !~ /^$/ AND (region =~ /^$/ OR dc =~ /^a$/)",
+	"SELECT time AS ts, time, v FROM (SELECT v FROM cpu WHERE host !~ /^$/) WHERE region !~ /^$/ GROUP BY time(1m), * fill(previous)",
 }
 
 func checkC14(c *Ctx) (string, bool, []string) {
 	r := c.R
-	rule := "SELECT statements (bare, inside EXPLAIN and continuous queries) from all clause subsets and random payloads (INTO targets of every form, regex sources, subqueries to depth 3, parenthesised and nested expressions) plus fixed statements with reducible subquery content: Clone / CloneExpr / Measurement.Clone / CloneRegexLiteral compared structurally and walked for shared mutable nodes; every non-mutating operation checked for receiver change; 1-6 in-place operations (RewriteRegexConditions, RewriteDistinct, RewriteTimeFields, SetTimeRange, mutating Rewrite / RewriteExpr, reflective pokes of every string / number / bool / slice slot) applied to the clone and to the original with the other side's dump compared after every step; the same histories between a statement and the statements Reduce / RewriteFields return for it. Non-trivial = statement has a WHERE, GROUP BY, INTO or subquery; distinct by text."
+	rule := "SELECT statements (bare, inside EXPLAIN and continuous queries) from all clause subsets and random payloads (INTO targets of every form, regex sources, subqueries to depth 3, parenthesised and nested expressions) plus fixed statements with reducible subquery content: Clone / CloneExpr / Measurement.Clone / CloneRegexLiteral compared structurally and walked for shared mutable nodes; every non-mutating operation checked for receiver change; 0-2 in-place operations before the clone is taken (the clone must equal the rewritten statement) and 1-6 after it, on the clone only, on the original only, or interleaved on both (RewriteRegexConditions, RewriteDistinct, RewriteTimeFields, SetTimeRange, mutating Rewrite / RewriteExpr, reflective pokes of every string / number / bool / slice slot) applied to the clone and to the original with the other side's dump compared after every step; the same histories between a statement and the statements Reduce / RewriteFields return for it. Non-trivial = statement has a WHERE, GROUP BY, INTO or subquery; distinct by text."
 	assume := []string{"*regexp.Regexp and *time.Location are immutable library objects and may be shared", "the unexported GROUP BY interval memo is not part of a statement's observable structure"}
 	if c.Replay != nil {
 		c14One(c, replayStr(c, "input"), replayInt(c, "idx"), map[string]int64{})
 		return rule, false, assume
 	}
-	for i, t := range c14Fixed {
+	// every fixed statement under 60 (600) different random schedules
+	nf := c.N(60, 600)
+	mon.Parallel(len(c14Fixed)*nf, c.Workers, func(j int) {
 		local := map[string]int64{}
-		c14One(c, t, 2000000+i, local)
+		t := c14Fixed[j%len(c14Fixed)]
+		c14One(c, t, 2000000+j, local)
 		r.DistinctStr(t)
 		r.MergeCounts(local)
-	}
+	})
 	kinds := []int{gen.KindIndex("Select"), gen.KindIndex("Explain"), gen.KindIndex("CreateContinuousQuery")}
 	type job struct{ kind, mask int }
 	var jobs []job
